@@ -74,10 +74,10 @@ var assumptionText = map[string]string{
 	"A-HEX":    "hex.EncodeToString / DecodeString are inverse on their ranges; the encoding has two digits per octet and no NUL",
 }
 
-func reg(key string, f intrinsic)           { intrinsics[key] = f }
-func regI(key string, f ifaceIntrinsic)     { ifaceIntrinsics[key] = f }
-func one(v Value) []Value                   { return []Value{v} }
-func nilErr() *IfaceVal                     { return &IfaceVal{Sym: IntLit(0)} }
+func reg(key string, f intrinsic)       { intrinsics[key] = f }
+func regI(key string, f ifaceIntrinsic) { ifaceIntrinsics[key] = f }
+func one(v Value) []Value               { return []Value{v} }
+func nilErr() *IfaceVal                 { return &IfaceVal{Sym: IntLit(0)} }
 func (x *Exec) lenOut(t *Term) Value {
 	if x.bv {
 		return Int2BV(t, 64)
@@ -361,6 +361,19 @@ func init() {
 	reg("time.Now", func(x *Exec, st *State, fr *Frame, in ssa.Instruction, callee *ssa.Function, args []Value) []Value {
 		x.assume("A-TIME")
 		return one(x.freshValue(st, callee.Signature.Results().At(0).Type(), "now", false))
+	})
+	reg("encoding/hex.DecodeString", func(x *Exec, st *State, fr *Frame, in ssa.Instruction, callee *ssa.Function, args []Value) []Value {
+		x.assume("A-HEX")
+		s := args[0].(*Term)
+		// succeeds exactly on the images of EncodeToString (lower case) and of their upper-case variants; the contract
+		// below only states what is needed: on success the result has half the length, and hexdec inverts hexenc
+		ok := Fresh("hex.ok", SBool)
+		r := App("hexdec", SBytes, s)
+		st.Assume(Implies(Eq(s, App("hexenc", SBytes, r)), ok))
+		st.Assume(Implies(ok, Eq(Mul(IntLit(2), App("len", SInt, r)), Len(s))))
+		res := x.newByteSlice(st, Ite(ok, r, TEps), "hexdec")
+		x.countAllocN(st, Len(s))
+		return []Value{res, x.condErr(st, "hex", ok, TFalse)}
 	})
 	// ---- strings
 	reg("strings.Join", func(x *Exec, st *State, fr *Frame, in ssa.Instruction, callee *ssa.Function, args []Value) []Value {
